@@ -175,8 +175,11 @@ package samlsp
 //@ requires[cfg] r: r != nil && r.URL != nil
 //@ -- with IdP-initiated login off: a session is created and the browser redirected only if no RelayState came back
 //@ -- (default target) or the tracker produced the tracked request named by RelayState (its recorded URI)
-//@ assert@call[C17] CreateSession #1 (sess SessionProvider, w2 http.ResponseWriter, rq *http.Request, a *saml.Assertion) uses target=redirectURI string session_only_for_tracked_flow:
-//@    a == assertion && (m.ServiceProvider.AllowIDPInitiated || r.Form.Get("RelayState") == "" || TrackedURI(m.RequestTracker, r, r.Form.Get("RelayState"), target))
+//@ -- (the session condition names no local of the function: which variable holds the target, and when, is free)
+//@ assert@call[C17] CreateSession #each (sess SessionProvider, w2 http.ResponseWriter, rq *http.Request, a *saml.Assertion) session_only_for_tracked_flow:
+//@    a == assertion && (m.ServiceProvider.AllowIDPInitiated || r.Form.Get("RelayState") == "" || TrackedIndex(m.RequestTracker, r, r.Form.Get("RelayState")))
+//@ assert@call[C17] Redirect #each (w2 http.ResponseWriter, rq *http.Request, u string, code int) redirect_to_tracked_uri:
+//@    m.ServiceProvider.AllowIDPInitiated || r.Form.Get("RelayState") == "" || TrackedURI(m.RequestTracker, r, r.Form.Get("RelayState"), u)
 
 //@ -- filled completely from the configured source (io.ReadFull: one Read may come up short); the panic on a failing
 //@ -- source is an environment fault and not counted
